@@ -1,14 +1,14 @@
-(* interp_correct: under names_apart the compile-time evaluator (Back/InterpSem: one symbol stack, dynamic lookup,
-   nothing popped at block exit, assertion failures counted) agrees with the reference semantics (Lang/Ref) on every
-   shadow block on which the reference is defined.  Mutual induction on fuel, as in Back/Agree.v, with the invariant
-   that relates the single stack to Ref's per-activation environment:
+(* interp_correct: under names_apart the compile-time evaluator (Back/InterpSem: ONE symbol stack shared by all active
+   calls, names resolved newest-first = dynamic scoping, blocks pop their symbols (fix 9481a65), `set` ignores mutability,
+   assertion failures counted) agrees with the reference semantics (Lang/Ref) on every shadow block on which the
+   reference is defined.  Mutual induction on fuel, as in Back/Agree.v.  Invariant relating the single stack to Ref's
+   per-activation environment:
 
-     stack = own ++ outer ++ genv ++ base
-       own   = symbols pushed by the current activation (live ones AND leftovers of finished blocks)
-       outer = symbols of the callers / of earlier shadow blocks
-     names en = bound (the names the static check has in scope), NoDup bound,
-     every name in bound has the same value in own (newest first) and in en,
-     no name in own ++ outer is a global name.                                                        *)
+     stack = en ++ outer ++ genv ++ base
+       en    = Ref's environment of the current activation, entry for entry
+       outer = the symbols of the callers (and, below them, of the shadow block that made the call)
+     no name in en ++ outer is a global name (this is all that dynamic scoping forces: a free name of the callee is
+     a top-level constant, and nothing above the constants on the stack is spelled like one).                      *)
 From Coq Require Import ZArith NArith List Bool Lia.
 From NV Require Import Lang.Ast Lang.Ref Back.InterpSem Back.InterpLemmas Driver.ShadowGate Back.NamesApart.
 Import ListNotations.
@@ -30,13 +30,6 @@ Proof.
   rewrite <- mem_true_iff. destruct (mem x l); split; intros H.
   - discriminate. - exfalso. apply H. reflexivity. - intros Q. discriminate. - reflexivity.
 Qed.
-Lemma nodupb_NoDup l : nodupb l = true -> NoDup l.
-Proof.
-  induction l as [|x r IH]; simpl; intros H; [constructor|].
-  apply andb_true_iff in H. destruct H as [H1 H2]. constructor; [|apply IH; exact H2].
-  apply mem_false_iff. destruct (mem x r); [discriminate|reflexivity].
-Qed.
-
 (* ---- operators *)
 Lemma unop_agree o v v' : eval_unop o v = OV v' -> i_unop o v = v'.
 Proof. destruct o, v; simpl; intros H; inversion H; reflexivity. Qed.
@@ -136,53 +129,32 @@ Proof.
 Qed.
 
 Lemma fn_ok_parts gn d : fn_ok gn d = true ->
-  NoDup (map fst (fparams d)) /\ (forall x, In x (map fst (fparams d)) -> ~ In x gn) /\
-  (exists b, chk gn (rev (map fst (fparams d))) (fbody d) = Some b) /\ stmt_plain (fbody d) = true.
+  (forall x, In x (map fst (fparams d)) -> ~ In x gn) /\ binders_ok gn (fbody d) = true /\ stmt_plain (fbody d) = true.
 Proof.
   unfold fn_ok. intros H. repeat (apply andb_true_iff in H; destruct H as [H ?]).
-  split; [apply nodupb_NoDup; exact H|]. split.
-  - intros x Hx. rewrite forallb_forall in H2. specialize (H2 x Hx). apply mem_false_iff. destruct (mem x gn); [discriminate|reflexivity].
-  - split; [|assumption]. destruct (chk gn (rev (map fst (fparams d))) (fbody d)); [eexists; reflexivity|discriminate].
+  split; [|split; assumption].
+  intros x Hx. rewrite forallb_forall in H. specialize (H x Hx). apply mem_false_iff. destruct (mem x gn); [discriminate|reflexivity].
 Qed.
 
-(* ---- the for loop's slot and the truncation at loop exit *)
-Lemma names_decomp (J : istack) AJ x N0 : names J = AJ ++ x :: N0 ->
-  exists P m w R0, J = P ++ (x, (m, w)) :: R0 /\ names P = AJ /\ names R0 = N0.
-Proof.
-  intros H. destruct (names_split _ _ _ H) as [P [R [E [HP HR]]]].
-  destruct R as [|[x' [m w]] R0]; [discriminate|]. simpl in HR. inversion HR; subst.
-  exists P, m, w, R0. auto.
-Qed.
+Lemma negb_mem_notin x gn : negb (mem x gn) = true -> ~ In x gn.
+Proof. intros H. apply mem_false_iff. destruct (mem x gn); [discriminate|reflexivity]. Qed.
 
-Lemma for_slot (J : istack) AJ x own0 rest v : names J = AJ ++ x :: names own0 -> ~ In x AJ ->
-  exists J1, set_index (length (own0 ++ rest)) v (J ++ rest) = J1 ++ rest /\ names J1 = names J /\
-             vlook x J1 = Some v /\ (forall y, y <> x -> vlook y J1 = vlook y J).
+(* leaving the body of a for loop: the loop variable's slot and everything below it survive *)
+Lemma leave_for_body (en en' : env) x v pre : shape en' = pre ++ shape ((x, (false, v)) :: en) ->
+  exists a0 v' b, en' = a0 ++ (x, (false, v')) :: b /\ shape b = shape en /\ restore (length en) en' = b /\
+    forall rest, truncate (length (en ++ rest)) (en' ++ rest) = b ++ rest /\
+                 truncate (S (length (en ++ rest))) (en' ++ rest) = (x, (false, v')) :: b ++ rest.
 Proof.
-  intros H Hx. destruct (names_decomp _ _ _ _ H) as [P [m [w [R0 [E [HP HR]]]]]]. subst J.
-  exists (P ++ (x, (m, v)) :: R0). split; [|split; [|split]].
-  - rewrite <- !app_assoc. simpl. replace (length (own0 ++ rest)) with (length (R0 ++ rest)).
-    + apply set_index_app.
-    + rewrite !app_length. rewrite (names_length _ _ HR). reflexivity.
-  - rewrite !names_app. reflexivity.
-  - rewrite vlook_app_r by (rewrite HP; exact Hx). apply vlook_cons_eq.
-  - intros y Hy. destruct (in_dec N.eq_dec y (names P)) as [I|I].
-    + rewrite !vlook_app_l by exact I. reflexivity.
-    + rewrite !vlook_app_r by exact I. rewrite !vlook_cons_ne by exact Hy. reflexivity.
-Qed.
-
-Lemma for_exit (J : istack) AJ x own0 rest (bound : list ident) : names J = AJ ++ x :: names own0 ->
-  (forall y, In y bound -> ~ In y AJ /\ y <> x) ->
-  exists R0, truncate (length (own0 ++ rest)) (J ++ rest) = R0 ++ rest /\ names R0 = names own0 /\
-             (forall y, In y bound -> vlook y R0 = vlook y J).
-Proof.
-  intros H Hb. destruct (names_decomp _ _ _ _ H) as [P [m [w [R0 [E [HP HR]]]]]]. subst J.
-  exists R0. split; [|split].
-  - replace ((P ++ (x, (m, w)) :: R0) ++ rest) with ((P ++ [(x, (m, w))]) ++ R0 ++ rest) by (rewrite <- !app_assoc; reflexivity).
-    replace (length (own0 ++ rest)) with (length (R0 ++ rest)) by (rewrite !app_length, (names_length _ _ HR); reflexivity).
+  intros H. destruct (shape_split _ _ _ H) as [a0 [b' [E [Ha Hb]]]].
+  destruct b' as [|[x' [m' v']] b]; [discriminate|]. simpl in Hb. injection Hb as Hx Hm Hs. subst x' m'.
+  exists a0, v', b. pose proof (shape_length _ _ Hs) as L. subst en'. repeat split; auto.
+  - replace (a0 ++ (x, (false, v')) :: b) with ((a0 ++ [(x, (false, v'))]) ++ b) by (rewrite <- app_assoc; reflexivity).
+    rewrite <- L. apply restore_app.
+  - replace ((a0 ++ (x, (false, v')) :: b) ++ rest) with ((a0 ++ [(x, (false, v'))]) ++ b ++ rest) by (rewrite <- !app_assoc; reflexivity).
+    replace (length (en ++ rest)) with (length (b ++ rest)) by (rewrite !app_length, L; reflexivity). apply truncate_app.
+  - replace ((a0 ++ (x, (false, v')) :: b) ++ rest) with (a0 ++ ((x, (false, v')) :: b ++ rest)) by (rewrite <- !app_assoc; reflexivity).
+    replace (S (length (en ++ rest))) with (length ((x, (false, v')) :: b ++ rest)) by (simpl; rewrite !app_length, L; reflexivity).
     apply truncate_app.
-  - exact HR.
-  - intros y Hy. destruct (Hb y Hy) as [H1 H2]. rewrite vlook_app_r by (rewrite HP; exact H1).
-    rewrite vlook_cons_ne by exact H2. reflexivity.
 Qed.
 
 Section Agree.
@@ -190,196 +162,91 @@ Variable fns : list fn.
 Variable gn : list ident.
 Hypothesis Hfns : forall d, In d fns -> fn_ok gn d = true.
 
-Record inv (bound : list ident) (own outer : istack) (en : env) : Prop := {
-  inv_names : names en = bound;
-  inv_nodup : NoDup bound;
-  inv_look : forall x, In x bound -> vlook x own = vlook x en;
-  inv_gn : forall x, In x (names own ++ names outer) -> ~ In x gn }.
+Definition locals_ok (en : env) (outer : istack) : Prop := forall x, In x (names en ++ names outer) -> ~ In x gn.
 
 Definition expr_agree (fuel : nat) : Prop :=
-  forall genv base bound own outer en e out asr,
-    incl (names genv) gn -> inv bound own outer en -> expr_plain e = true ->
-    agree_with (Pe (own ++ outer ++ genv ++ base) asr)
-      (eval_expr fns fuel genv en e out) (ieval fns fuel e (mkw (own ++ outer ++ genv ++ base) out asr)).
+  forall genv base en outer e out asr,
+    incl (names genv) gn -> locals_ok en outer -> expr_plain e = true ->
+    agree_with (Pe (en ++ outer ++ genv ++ base) asr)
+      (eval_expr fns fuel genv en e out) (ieval fns fuel e (mkw (en ++ outer ++ genv ++ base) out asr)).
 
-(* what a statement leaves behind *)
-Definition post (bound bound' : list ident) (own own' : istack) (en' : env) (c : ctl) : Prop :=
-  exists pre A,
-    names en' = pre ++ bound /\ NoDup (pre ++ bound) /\ (c = CNormal -> pre ++ bound = bound') /\
-    names own' = A ++ names own /\
-    (forall x, In x A -> ~ In x bound /\ ~ In x gn) /\
-    (forall x, In x (pre ++ bound) -> vlook x own' = vlook x en').
-
-Definition Ps (rest : istack) (asr : list bool) (bound bound' : list ident) (own : istack)
-           (r : ctl * env) (out' : list N) (c' : ctl) (w' : world) : Prop :=
-  c' = fst r /\ exists own' l, alltrue l /\ w' = mkw (own' ++ rest) out' (asr ++ l) /\ post bound bound' own own' (snd r) (fst r).
+(* statements: same control, the evaluator's stack is Ref's new environment on top of the untouched rest; Ref's new
+   environment extends the old one's shape; its names still avoid the globals *)
+Definition Ps (rest : istack) (asr : list bool) (en : env) (r : ctl * env) (out' : list N) (c' : ctl) (w' : world) : Prop :=
+  c' = fst r /\ exists l, alltrue l /\ w' = mkw (snd r ++ rest) out' (asr ++ l) /\
+    (exists pre, shape (snd r) = pre ++ shape en) /\ (forall x, In x (names (snd r)) -> ~ In x gn).
 
 Definition stmt_agree (fuel : nat) : Prop :=
-  forall genv base bound bound' own outer en s out asr,
-    incl (names genv) gn -> inv bound own outer en -> chk gn bound s = Some bound' -> stmt_plain s = true ->
-    agree_with (Ps (outer ++ genv ++ base) asr bound bound' own)
-      (exec_stmt fns fuel genv en s out) (iexec fns fuel s (mkw (own ++ outer ++ genv ++ base) out asr)).
+  forall genv base en outer s out asr,
+    incl (names genv) gn -> locals_ok en outer -> binders_ok gn s = true -> stmt_plain s = true ->
+    agree_with (Ps (outer ++ genv ++ base) asr en)
+      (exec_stmt fns fuel genv en s out) (iexec fns fuel s (mkw (en ++ outer ++ genv ++ base) out asr)).
 
-Definition Pf (rest : istack) (asr : list bool) (bound : list ident) (own0 : istack)
-           (r : ctl * env) (out' : list N) (c' : ctl) (w' : world) : Prop :=
-  c' = fst r /\ exists own' l, alltrue l /\ w' = mkw (own' ++ rest) out' (asr ++ l) /\
-    names own' = names own0 /\ names (snd r) = bound /\ (forall y, In y bound -> vlook y own' = vlook y (snd r)).
+Definition Pf (rest : istack) (asr : list bool) (en : env) (r : ctl * env) (out' : list N) (c' : ctl) (w' : world) : Prop :=
+  c' = fst r /\ exists l, alltrue l /\ w' = mkw (snd r ++ rest) out' (asr ++ l) /\ shape (snd r) = shape en.
 
 Definition for_agree (fuel : nat) : Prop :=
-  forall genv base bound bb x body own0 outer Jx AJ en i hi out asr,
-    incl (names genv) gn -> ~ In x bound -> ~ In x gn -> chk gn (x :: bound) body = Some bb -> stmt_plain body = true ->
-    names en = bound -> NoDup bound ->
-    names Jx = AJ ++ x :: names own0 ->
-    (forall y, In y AJ -> y <> x /\ ~ In y bound /\ ~ In y gn) ->
-    (forall y, In y bound -> vlook y Jx = vlook y en) ->
-    (forall y, In y (names own0 ++ names outer) -> ~ In y gn) ->
-    agree_with (Pf (outer ++ genv ++ base) asr bound own0)
+  forall genv base x body en outer v i hi out asr,
+    incl (names genv) gn -> ~ In x gn -> locals_ok en outer -> binders_ok gn body = true -> stmt_plain body = true ->
+    agree_with (Pf (outer ++ genv ++ base) asr en)
       (exec_for fns fuel genv en x i hi body out)
-      (ifor fns fuel (length (own0 ++ outer ++ genv ++ base)) i hi body (mkw (Jx ++ outer ++ genv ++ base) out asr)).
+      (ifor fns fuel (length (en ++ outer ++ genv ++ base)) i hi body (mkw (((x, (false, v)) :: en) ++ outer ++ genv ++ base) out asr)).
 
-(* ---- small facts about the invariant *)
-Lemma inv_var_local bound own outer en x m v rest :
-  inv bound own outer en -> lookup x en = Some (m, v) -> exists m', ilookup x (own ++ rest) = Some (m', v).
+Lemma names_of_shape (a b : env) : shape a = shape b -> names a = names b.
+Proof. intros H. rewrite !shape_names, H. reflexivity. Qed.
+
+Lemma locals_ok_shape en en' outer : shape en' = shape en -> locals_ok en outer -> locals_ok en' outer.
+Proof. intros H L x Hx. apply L. rewrite <- (names_of_shape _ _ H). exact Hx. Qed.
+
+Lemma locals_ok_names en en' outer : (forall x, In x (names en') -> ~ In x gn) -> locals_ok en outer -> locals_ok en' outer.
 Proof.
-  intros I L. assert (Hin : In x bound). { rewrite <- (inv_names _ _ _ _ I). eapply lookup_some_in. exact L. }
-  pose proof (inv_look _ _ _ _ I x Hin) as Q. unfold vlook in Q. rewrite L in Q. simpl in Q.
-  rewrite ilookup_same. destruct (lookup x own) as [[m' v']|] eqn:E; simpl in Q; [|discriminate].
-  inversion Q; subst. exists m'. rewrite lookup_app_l; [exact E|]. eapply lookup_some_in. exact E.
+  intros H L x Hx. apply in_app_or in Hx. destruct Hx as [Hx|Hx]; [apply H; exact Hx|].
+  apply L. apply in_or_app. right. exact Hx.
 Qed.
 
-Lemma inv_var_global bound own outer en genv base x b :
-  incl (names genv) gn -> inv bound own outer en -> lookup x en = None -> lookup x genv = Some b ->
-  ilookup x (own ++ outer ++ genv ++ base) = Some b.
+Lemma agree_ok_Ps rest asr en c en' out' l :
+  alltrue l -> (exists pre, shape en' = pre ++ shape en) -> (forall x, In x (names en') -> ~ In x gn) ->
+  agree_with (Ps rest asr en) (Ok (c, en') out') (IOk c (mkw (en' ++ rest) out' (asr ++ l))).
 Proof.
-  intros G I L1 L2. assert (Hg : In x gn). { apply G. eapply lookup_some_in. exact L2. }
-  rewrite ilookup_same. rewrite lookup_app_r.
-  2:{ intros Q. apply (inv_gn _ _ _ _ I x); [apply in_or_app; left; exact Q|exact Hg]. }
-  rewrite lookup_app_r.
-  2:{ intros Q. apply (inv_gn _ _ _ _ I x); [apply in_or_app; right; exact Q|exact Hg]. }
-  rewrite lookup_app_l; [exact L2|]. eapply lookup_some_in. exact L2.
+  intros Hl Hs Hn. simpl. exists c, (mkw (en' ++ rest) out' (asr ++ l)). split; [reflexivity|].
+  split; [reflexivity|]. exists l. auto.
 Qed.
 
-(* the reference binds, the evaluator makes a tail call *)
-Lemma agree_bind_r {A B B'} (P : A -> list N -> B' -> world -> Prop) (P2 : B -> list N -> B' -> world -> Prop)
-      (r : res A) (i : ires B') (k : A -> list N -> res B) :
-  agree_with P r i ->
-  (forall a out' a' w', P a out' a' w' -> agree_with P2 (k a out') (IOk a' w')) ->
-  agree_with P2 (bind r k) i.
+Lemma Ps_ext_agree rest asr l en r i :
+  alltrue l -> agree_with (Ps rest (asr ++ l) en) r i -> agree_with (Ps rest asr en) r i.
 Proof.
-  intros H K. destruct r as [a out'|f out'| |]; simpl in *; try exact I.
-  - destruct H as [a' [w' [E Q]]]. subst i. apply K. exact Q.
-  - destruct f; try exact I. exact H.
+  intros Hl. apply agree_with_impl. intros a out' a' w' [E [l' [Hl' [Hw Hr]]]]. split; [exact E|].
+  exists (l ++ l'). split; [apply alltrue_app; assumption|]. split; [rewrite app_assoc; exact Hw|exact Hr].
 Qed.
 
-Lemma agree_ok_Ps rest asr bound bound' own c en' out' own' l :
-  alltrue l -> post bound bound' own own' en' c ->
-  agree_with (Ps rest asr bound bound' own) (Ok (c, en') out') (IOk c (mkw (own' ++ rest) out' (asr ++ l))).
+(* the statement ran from an environment en1 that itself extends en *)
+Lemma Ps_chain_agree rest asr l en en1 pre1 r i :
+  alltrue l -> shape en1 = pre1 ++ shape en ->
+  agree_with (Ps rest (asr ++ l) en1) r i -> agree_with (Ps rest asr en) r i.
 Proof.
-  intros Hl Hp. simpl. exists c, (mkw (own' ++ rest) out' (asr ++ l)). split; [reflexivity|].
-  split; [reflexivity|]. exists own', l. auto.
+  intros Hl Hs H. apply Ps_ext_agree with (l := l); [exact Hl|]. revert H. apply agree_with_impl.
+  intros a out' a' w' [E [l' [Hl' [Hw [[pre Hp] Hn]]]]]. split; [exact E|]. exists l'. repeat split; auto.
+  exists (pre ++ pre1). rewrite Hp, Hs, app_assoc. reflexivity.
 Qed.
 
-Lemma Ps_ext rest asr l bound bound' own r out' c' w' :
-  alltrue l -> Ps rest (asr ++ l) bound bound' own r out' c' w' -> Ps rest asr bound bound' own r out' c' w'.
+Lemma Pf_ext_agree rest asr l en r i :
+  alltrue l -> agree_with (Pf rest (asr ++ l) en) r i -> agree_with (Pf rest asr en) r i.
 Proof.
-  intros Hl [E [own' [l' [Hl' [Hw Hp]]]]]. split; [exact E|]. exists own', (l ++ l').
-  split; [apply alltrue_app; assumption|]. split; [rewrite app_assoc; exact Hw|exact Hp].
+  intros Hl. apply agree_with_impl. intros a out' a' w' [E [l' [Hl' [Hw Hr]]]]. split; [exact E|].
+  exists (l ++ l'). split; [apply alltrue_app; assumption|]. split; [rewrite app_assoc; exact Hw|exact Hr].
 Qed.
 
-Lemma Ps_ext_agree rest asr l bound bound' own r i :
-  alltrue l -> agree_with (Ps rest (asr ++ l) bound bound' own) r i -> agree_with (Ps rest asr bound bound' own) r i.
-Proof. intros Hl. apply agree_with_impl. intros. eapply Ps_ext; eassumption. Qed.
-
-Lemma Pf_ext_agree rest asr l bound own0 r i :
-  alltrue l -> agree_with (Pf rest (asr ++ l) bound own0) r i -> agree_with (Pf rest asr bound own0) r i.
+Lemma agree_ok_Pf rest asr en c en' out' l :
+  alltrue l -> shape en' = shape en ->
+  agree_with (Pf rest asr en) (Ok (c, en') out') (IOk c (mkw (en' ++ rest) out' (asr ++ l))).
 Proof.
-  intros Hl. apply agree_with_impl. intros a out' a' w' [E [own' [l' [Hl' [Hw Hr]]]]]. split; [exact E|].
-  exists own', (l ++ l'). split; [apply alltrue_app; assumption|]. split; [rewrite app_assoc; exact Hw|exact Hr].
+  intros Hl H1. simpl. exists c, (mkw (en' ++ rest) out' (asr ++ l)). split; [reflexivity|].
+  split; [reflexivity|]. exists l. auto.
 Qed.
 
-Lemma agree_ok_Pf rest asr bound own0 c en' out' own' l :
-  alltrue l -> names own' = names own0 -> names en' = bound -> (forall y, In y bound -> vlook y own' = vlook y en') ->
-  agree_with (Pf rest asr bound own0) (Ok (c, en') out') (IOk c (mkw (own' ++ rest) out' (asr ++ l))).
-Proof.
-  intros Hl H1 H2 H3. simpl. exists c, (mkw (own' ++ rest) out' (asr ++ l)). split; [reflexivity|].
-  split; [reflexivity|]. exists own', l. auto.
-Qed.
+Lemma same_shape_pre (en : env) : exists pre : list (ident * bool), shape en = pre ++ shape en.
+Proof. exists []. reflexivity. Qed.
 
-Lemma post_refl bound bound' own en c :
-  names en = bound -> NoDup bound -> (forall x, In x bound -> vlook x own = vlook x en) -> (c = CNormal -> bound = bound') ->
-  post bound bound' own own en c.
-Proof. intros H1 H2 H3 H4. exists [], []. simpl. repeat split; auto; contradiction. Qed.
-
-Lemma post_abrupt bound b1 bound' own own' en' c : c <> CNormal -> post bound b1 own own' en' c -> post bound bound' own own' en' c.
-Proof.
-  intros Hc [pre [A [H1 [H2 [H3 [H4 [H5 H6]]]]]]]. exists pre, A. repeat split; auto; try (apply H5; assumption).
-  intros Q. contradiction.
-Qed.
-
-Lemma nodup_app_r (pre bound : list ident) : NoDup (pre ++ bound) -> NoDup bound.
-Proof. induction pre as [|y p IH]; simpl; intros H; [exact H|]. inversion H; subst. apply IH. assumption. Qed.
-
-Lemma in_app_nodup_l (pre bound : list ident) x : NoDup (pre ++ bound) -> In x bound -> ~ In x pre.
-Proof.
-  induction pre as [|y p IH]; simpl; intros H Hx; [tauto|]. inversion H; subst. intros [Q|Q].
-  - subst. apply H2. apply in_or_app. right. exact Hx.
-  - apply (IH H3 Hx). exact Q.
-Qed.
-
-(* leaving a block: Ref restores the environment, the evaluator keeps everything *)
-Lemma post_block bound b1 own own1 (en en1 : env) c c' :
-  names en = bound -> post bound b1 own own1 en1 c ->
-  post bound bound own own1 (restore (length en) en1) c' /\
-  names (restore (length en) en1) = bound /\
-  (forall x, In x bound -> vlook x own1 = vlook x (restore (length en) en1)).
-Proof.
-  intros Hn [pre [A [H1 [H2 [H3 [H4 [H5 H6]]]]]]].
-  assert (Hl : length en = length bound). { rewrite <- Hn. unfold names. rewrite map_length. reflexivity. }
-  destruct (restore_names en1 pre bound (length en) H1 Hl) as [a [b [E [Ha [Hb Hr]]]]].
-  assert (HL : forall x, In x bound -> vlook x own1 = vlook x (restore (length en) en1)).
-  { intros x Hx. rewrite Hr. rewrite H6 by (apply in_or_app; right; exact Hx). rewrite E.
-    apply vlook_app_r. rewrite Ha. apply in_app_nodup_l with (bound := bound); assumption. }
-  split; [|split; [rewrite Hr; exact Hb|exact HL]].
-  exists [], A. simpl. rewrite Hr. repeat split; auto; try (apply H5; assumption).
-  - eapply nodup_app_r. exact H2.
-  - intros x Hx. rewrite <- Hr. apply HL. exact Hx.
-Qed.
-
-Lemma post_chain bound b1 bound' own own1 own2 A1 pre1 en2 c :
-  names own1 = A1 ++ names own -> (forall x, In x A1 -> ~ In x bound /\ ~ In x gn) -> b1 = pre1 ++ bound ->
-  post b1 bound' own1 own2 en2 c -> post bound bound' own own2 en2 c.
-Proof.
-  intros HA Hav Hb [pre [A [H1 [H2 [H3 [H4 [H5 H6]]]]]]]. subst b1.
-  exists (pre ++ pre1), (A ++ A1). rewrite <- !app_assoc. repeat split; auto.
-  - rewrite H4, HA. reflexivity.
-  - apply in_app_or in H. destruct H as [H|H]; [|apply Hav; exact H].
-    intros Q. apply (proj1 (H5 x H)). apply in_or_app. right. exact Q.
-  - apply in_app_or in H. destruct H as [H|H]; [apply H5; exact H|apply Hav; exact H].
-Qed.
-
-Lemma Ps_chain rest asr l1 bound b1 bound' own own1 A1 pre1 r out' c' w' :
-  alltrue l1 -> names own1 = A1 ++ names own -> (forall x, In x A1 -> ~ In x bound /\ ~ In x gn) -> b1 = pre1 ++ bound ->
-  Ps rest (asr ++ l1) b1 bound' own1 r out' c' w' -> Ps rest asr bound bound' own r out' c' w'.
-Proof.
-  intros Hl HA Hav Hb H. apply Ps_ext with (l := l1); [exact Hl|].
-  destruct H as [E [own2 [l2 [Hl2 [Hw Hp]]]]]. split; [exact E|]. exists own2, l2. repeat split; auto.
-  eapply post_chain; eassumption.
-Qed.
-
-Lemma inv_of_post bound b1 own own1 outer en en1 :
-  inv bound own outer en -> post bound b1 own own1 en1 CNormal -> inv b1 own1 outer en1.
-Proof.
-  intros IV [pre [A [H1 [H2 [H3 [H4 [H5 H6]]]]]]]. specialize (H3 eq_refl). subst b1. constructor; auto.
-  intros x Hx. rewrite H4 in Hx. rewrite <- app_assoc in Hx. apply in_app_or in Hx. destruct Hx as [Hx|Hx].
-  - apply H5. exact Hx.
-  - apply (inv_gn _ _ _ _ IV). exact Hx.
-Qed.
-
-(* monotonicity obligations of continuations are all of this form *)
-Lemma failed_mkw_ext w w' : ext w w' -> failed w = true -> failed w' = true.
-Proof. apply ext_failed. Qed.
-
-(* "the rest of the evaluator only extends the assertion log": closes the third premise of agree_bind *)
 Ltac mono_step :=
   match goal with
   | E : _ = IOk _ _ |- _ =>
@@ -403,16 +270,21 @@ Proof.
   - repeat split; red; intros; exact I.
   - unfold expr_agree in IHe. unfold stmt_agree in IHs. unfold for_agree in IHf. split; [|split].
     + (* ------------------------------------------------------------ expressions *)
-      red. intros genv base bound own outer en e out asr G IV PL.
-      set (S := own ++ outer ++ genv ++ base) in *.
+      red. intros genv base en outer e out asr G LO PL.
+      set (S := en ++ outer ++ genv ++ base) in *.
       destruct e; cbn [eval_expr ieval exec_stmt iexec exec_for ifor].
       * apply agree_ok_Pe0.
       * apply agree_ok_Pe0.
       * simpl in PL. destruct (list_eq_dec N.eq_dec (unescape s) s) as [Q|Q]; [|discriminate]. rewrite Q. apply agree_ok_Pe0.
-      * cbn [w_stk mkw]. destruct (lookup x en) as [[m v]|] eqn:L.
-        -- destruct (inv_var_local _ _ _ _ x m v (outer ++ genv ++ base) IV L) as [m' Q]. fold S in Q. rewrite Q. apply agree_ok_Pe0.
+      * cbn [w_stk mkw]. rewrite (ilookup_same x S). destruct (lookup x en) as [[m v]|] eqn:L.
+        -- unfold S. rewrite lookup_app_l by (eapply lookup_some_in; exact L). rewrite L. apply agree_ok_Pe0.
         -- destruct (lookup x genv) as [[m v]|] eqn:L2; [|exact I].
-           unfold S. rewrite (inv_var_global _ _ _ _ _ base _ _ G IV L L2). apply agree_ok_Pe0.
+           assert (Hg : In x gn) by (apply G; eapply lookup_some_in; exact L2).
+           unfold S. rewrite lookup_app_r.
+           2:{ intros Q. apply (LO x); [apply in_or_app; left; exact Q|exact Hg]. }
+           rewrite lookup_app_r.
+           2:{ intros Q. apply (LO x); [apply in_or_app; right; exact Q|exact Hg]. }
+           rewrite lookup_app_l by (eapply lookup_some_in; exact L2). rewrite L2. apply agree_ok_Pe0.
       * simpl in PL. eapply agree_bind with (P := Pe S asr).
         -- eapply IHe; eassumption.
         -- intros v out' v' w' [-> [l [Hl ->]]]. destruct (eval_unop o v) eqn:U; simpl.
@@ -461,25 +333,21 @@ Proof.
            destruct (bind_params (fparams d) vs) as [en'|] eqn:BP; [|exact I].
            rewrite (push_params_bind _ _ _ S BP).
            assert (Hd : In d fns). { unfold find_fn in F. apply find_some in F. tauto. }
-           destruct (fn_ok_parts _ _ (Hfns d Hd)) as [ND [NG [[bb CK] SP]]].
+           destruct (fn_ok_parts _ _ (Hfns d Hd)) as [NG [BK SP]].
            pose proof (bind_params_names _ _ _ BP) as NE.
-           assert (IVc : inv (rev (map fst (fparams d))) (rev en') (own ++ outer) (rev en')).
-           { constructor.
-             - rewrite names_rev, NE. reflexivity.
-             - apply NoDup_rev. exact ND.
-             - intros x _. reflexivity.
-             - intros x Hx. apply in_app_or in Hx. destruct Hx as [Hx|Hx].
-               + apply NG. rewrite names_rev, <- in_rev, NE in Hx. exact Hx.
-               + rewrite names_app in Hx. apply (inv_gn _ _ _ _ IV). exact Hx. }
+           assert (LOc : locals_ok (rev en') (en ++ outer)).
+           { intros x Hx. apply in_app_or in Hx. destruct Hx as [Hx|Hx].
+             - apply NG. rewrite names_rev, <- in_rev, NE in Hx. exact Hx.
+             - rewrite names_app in Hx. apply LO. exact Hx. }
            eapply agree_Pe_ext; [exact Hl1|].
-           assert (ES : (own ++ outer) ++ genv ++ base = S) by (unfold S; rewrite <- app_assoc; reflexivity).
+           assert (ES : (en ++ outer) ++ genv ++ base = S) by (unfold S; rewrite <- app_assoc; reflexivity).
            cbn [with_stk w_stk w_out w_asr mkw].
-           replace (rev en' ++ S) with (rev en' ++ (own ++ outer) ++ genv ++ base) by (rewrite ES; reflexivity).
-           change (with_stk (mkw S out1 (asr ++ l1)) (rev en' ++ (own ++ outer) ++ genv ++ base))
-             with (mkw (rev en' ++ (own ++ outer) ++ genv ++ base) out1 (asr ++ l1)).
-           eapply agree_bind with (P := Ps ((own ++ outer) ++ genv ++ base) (asr ++ l1) (rev (map fst (fparams d))) bb (rev en')).
-           ++ exact (IHs genv base (rev (map fst (fparams d))) bb (rev en') (own ++ outer) (rev en') (fbody d) out1 (asr ++ l1) G IVc CK SP).
-           ++ intros [c en2] out2 c' w2 [Hc [own' [l2 [Hl2 [-> Hpost]]]]]. simpl in Hc. subst c'. cbn [fst w_stk w_out w_asr mkw].
+           replace (rev en' ++ S) with (rev en' ++ (en ++ outer) ++ genv ++ base) by (rewrite ES; reflexivity).
+           change (with_stk (mkw S out1 (asr ++ l1)) (rev en' ++ (en ++ outer) ++ genv ++ base))
+             with (mkw (rev en' ++ (en ++ outer) ++ genv ++ base) out1 (asr ++ l1)).
+           eapply agree_bind with (P := Ps ((en ++ outer) ++ genv ++ base) (asr ++ l1) (rev en')).
+           ++ exact (IHs genv base (rev en') (en ++ outer) (fbody d) out1 (asr ++ l1) G LOc BK SP).
+           ++ intros [c en2] out2 c' w2 [Hc [l2 [Hl2 [-> Hpost]]]]. simpl in Hc. subst c'. cbn [fst snd w_stk w_out w_asr mkw].
               rewrite ES. rewrite truncate_app.
               destruct c; try exact I.
               ** apply agree_ok_Pe. exact Hl2.
@@ -492,197 +360,139 @@ Proof.
         intros vc out1 vc' w1 [-> [l1 [Hl1 ->]]]. destruct vc as [z|[|]| |s0]; try exact I; simpl;
           (eapply agree_Pe_ext; [exact Hl1|]; eapply IHe; eassumption).
     + (* ------------------------------------------------------------ statements *)
-      red. intros genv base bound bound' own outer en s out asr G IV CK SP.
+      red. intros genv base en outer s out asr G LO BK SP.
       set (rest := outer ++ genv ++ base) in *.
-      pose proof (inv_names _ _ _ _ IV) as IN. pose proof (inv_nodup _ _ _ _ IV) as IND. pose proof (inv_look _ _ _ _ IV) as IL.
-      destruct s; cbn [exec_stmt iexec]; simpl in CK; simpl in SP.
-      * (* skip *) inversion CK; subst bound'.
-        pose proof (agree_ok_Ps rest asr bound bound own CNormal en out own [] alltrue_nil (post_refl _ _ _ _ _ IN IND IL (fun _ => eq_refl))) as H.
-        rewrite app_nil_r in H. exact H.
+      assert (LN : forall x, In x (names en) -> ~ In x gn) by (intros x Hx; apply LO; apply in_or_app; left; exact Hx).
+      destruct s; cbn [exec_stmt iexec]; simpl in BK; simpl in SP.
+      * (* skip *)
+        pose proof (agree_ok_Ps rest asr en CNormal en out [] alltrue_nil (same_shape_pre en) LN) as H. rewrite app_nil_r in H. exact H.
       * (* seq *)
-        destruct (chk gn bound s1) as [b1|] eqn:C1; [|discriminate]. apply andb_true_iff in SP. destruct SP as [SP1 SP2].
-        eapply agree_bind with (P := Ps rest asr bound b1 own); [exact (IHs genv base bound b1 own outer en s1 out asr G IV C1 SP1)| |mono_tac].
-        intros [c en1] out1 c' w1 [Hc [own1 [l1 [Hl1 [-> P1]]]]]. simpl in Hc. subst c'. cbn [fst snd] in *.
+        apply andb_true_iff in BK. destruct BK as [BK1 BK2]. apply andb_true_iff in SP. destruct SP as [SP1 SP2].
+        eapply agree_bind with (P := Ps rest asr en); [exact (IHs genv base en outer s1 out asr G LO BK1 SP1)| |mono_tac].
+        intros [c en1] out1 c' w1 [Hc [l1 [Hl1 [-> [[pre1 Q1] Q2]]]]]. simpl in Hc. subst c'. cbn [fst snd] in *.
         destruct c.
-        -- pose proof (inv_of_post _ _ _ _ _ _ _ IV P1) as IV1.
-           destruct P1 as [pre1 [A1 [Q1 [Q2 [Q3 [Q4 [Q5 Q6]]]]]]]. specialize (Q3 eq_refl).
-           eapply agree_with_impl; [|exact (IHs genv base b1 bound' own1 outer en1 s2 out1 (asr ++ l1) G IV1 CK SP2)].
-           intros r out' c' w'. eapply Ps_chain; eauto.
-        -- apply agree_ok_Ps; [exact Hl1|]. eapply post_abrupt; [discriminate|exact P1].
-        -- apply agree_ok_Ps; [exact Hl1|]. eapply post_abrupt; [discriminate|exact P1].
-        -- apply agree_ok_Ps; [exact Hl1|]. eapply post_abrupt; [discriminate|exact P1].
+        -- eapply Ps_chain_agree; [exact Hl1|exact Q1|].
+           exact (IHs genv base en1 outer s2 out1 (asr ++ l1) G (locals_ok_names _ _ _ Q2 LO) BK2 SP2).
+        -- apply agree_ok_Ps; eauto.
+        -- apply agree_ok_Ps; eauto.
+        -- apply agree_ok_Ps; eauto.
       * (* let *)
-        destruct (mem x bound) eqn:M1; [discriminate|]. destruct (mem x gn) eqn:M2; [discriminate|]. simpl in CK. inversion CK; subst bound'.
-        apply mem_false_iff in M1. apply mem_false_iff in M2.
-        eapply agree_bind with (P := Pe (own ++ rest) asr); [exact (IHe genv base bound own outer en e out asr G IV SP)| |mono_tac].
+        apply negb_mem_notin in BK.
+        eapply agree_bind with (P := Pe (en ++ rest) asr); [exact (IHe genv base en outer e out asr G LO SP)| |mono_tac].
         intros v out1 v' w1 [-> [l1 [Hl1 ->]]].
-        apply (agree_ok_Ps rest asr bound (x :: bound) own CNormal ((x, (mut, v)) :: en) out1 ((x, (mut, v)) :: own) l1 Hl1).
-        exists [x], [x]. simpl. rewrite IN. repeat split; auto.
-        -- constructor; assumption.
-        -- destruct H as [H|[]]. subst. exact M1.
-        -- destruct H as [H|[]]. subst. exact M2.
-        -- intros y Hy. destruct (N.eq_dec y x) as [E|E].
-           ++ subst. rewrite !vlook_cons_eq. reflexivity.
-           ++ rewrite !vlook_cons_ne by assumption. apply IL. destruct Hy as [Hy|Hy]; [congruence|exact Hy].
+        apply (agree_ok_Ps rest asr en CNormal ((x, (mut, v)) :: en) out1 l1 Hl1).
+        -- exists [(x, mut)]. reflexivity.
+        -- intros y [Hy|Hy]; [subst; exact BK|apply LN; exact Hy].
       * (* set *)
-        inversion CK; subst bound'.
-        eapply agree_bind with (P := Pe (own ++ rest) asr); [exact (IHe genv base bound own outer en e out asr G IV SP)| |mono_tac].
+        eapply agree_bind with (P := Pe (en ++ rest) asr); [exact (IHe genv base en outer e out asr G LO SP)| |mono_tac].
         intros v out1 v' w1 [-> [l1 [Hl1 ->]]]. destruct (assign x v en) as [en1|] eqn:AS; [|exact I].
-        assert (Hx : In x bound). { rewrite <- IN. eapply assign_some_in. exact AS. }
-        assert (Hxo : In x (names own)).
-        { destruct (vlook_in_some x en) as [u Hu]; [rewrite IN; exact Hx|]. eapply vlook_some_in. rewrite IL by exact Hx. exact Hu. }
-        cbn [with_stk w_stk w_out w_asr mkw]. rewrite iassign_app_l by exact Hxo.
-        apply (agree_ok_Ps rest asr bound bound own CNormal en1 out1 (iassign x v own) l1 Hl1).
-        exists [], []. simpl. rewrite (assign_names _ _ _ _ AS), iassign_names, IN. repeat split; auto; try contradiction.
-        intros y Hy. destruct (N.eq_dec y x) as [E|E].
-        -- subst. rewrite vlook_iassign_same by exact Hxo. rewrite (assign_vlook_same _ _ _ _ AS). reflexivity.
-        -- rewrite vlook_iassign_other by exact E. rewrite (assign_vlook_other _ _ _ _ _ AS E). apply IL. exact Hy.
+        cbn [with_stk w_stk w_out w_asr mkw]. rewrite iassign_app_l by (eapply assign_some_in; exact AS).
+        rewrite (iassign_assign _ _ _ _ AS).
+        apply (agree_ok_Ps rest asr en CNormal en1 out1 l1 Hl1).
+        -- exists []. simpl. apply assign_shape with (x := x) (v := v). exact AS.
+        -- rewrite (assign_names _ _ _ _ AS). exact LN.
       * (* if *)
-        destruct (chk gn bound s1) as [b1|] eqn:C1; [|discriminate]. destruct (chk gn bound s2) as [b2|] eqn:C2; [|discriminate].
-        inversion CK; subst bound'.
+        apply andb_true_iff in BK. destruct BK as [BK1 BK2].
         apply andb_true_iff in SP. destruct SP as [SP SP2]. apply andb_true_iff in SP. destruct SP as [SP0 SP1].
-        eapply agree_bind with (P := Pe (own ++ rest) asr); [exact (IHe genv base bound own outer en c out asr G IV SP0)| |mono_tac].
-        intros vc out1 vc' w1 [-> [l1 [Hl1 ->]]]. destruct vc as [z|b| |s0]; try exact I. cbn [truthy].
-        destruct b.
-        -- eapply agree_bind_r with (P := Ps rest (asr ++ l1) bound b1 own); [exact (IHs genv base bound b1 own outer en s1 out1 (asr ++ l1) G IV C1 SP1)|].
-           intros [c1 en1] out2 c1' w2 [Hc [own1 [l2 [Hl2 [-> P1]]]]]. simpl in Hc. subst c1'. cbn [fst snd] in *.
-           rewrite <- app_assoc. apply agree_ok_Ps; [apply alltrue_app; assumption|].
-           apply (proj1 (post_block _ _ _ _ _ _ c1 c1 IN P1)).
-        -- eapply agree_bind_r with (P := Ps rest (asr ++ l1) bound b2 own); [exact (IHs genv base bound b2 own outer en s2 out1 (asr ++ l1) G IV C2 SP2)|].
-           intros [c1 en1] out2 c1' w2 [Hc [own1 [l2 [Hl2 [-> P1]]]]]. simpl in Hc. subst c1'. cbn [fst snd] in *.
-           rewrite <- app_assoc. apply agree_ok_Ps; [apply alltrue_app; assumption|].
-           apply (proj1 (post_block _ _ _ _ _ _ c1 c1 IN P1)).
+        eapply agree_bind with (P := Pe (en ++ rest) asr); [exact (IHe genv base en outer c out asr G LO SP0)| |mono_tac].
+        intros vc out1 vc' w1 [-> [l1 [Hl1 ->]]]. destruct vc as [z|b| |s0]; try exact I. cbn [truthy w_stk mkw].
+        eapply Ps_ext_agree; [exact Hl1|].
+        assert (BR : binders_ok gn (if b then s1 else s2) = true) by (destruct b; assumption).
+        assert (SR : stmt_plain (if b then s1 else s2) = true) by (destruct b; assumption).
+        eapply agree_bind with (P := Ps rest (asr ++ l1) en);
+          [exact (IHs genv base en outer (if b then s1 else s2) out1 (asr ++ l1) G LO BR SR)| |mono_tac].
+        intros [c1 en1] out2 c1' w2 [Hc [l2 [Hl2 [-> [[pre1 Q1] Q2]]]]]. simpl in Hc. subst c1'. cbn [fst snd with_stk w_stk w_out w_asr mkw] in *.
+        destruct (leave_block en en1 pre1 Q1) as [a [b0 [E [Ha [Hb [Hr Ht]]]]]].
+        fold rest. rewrite Ht, Hr. apply agree_ok_Ps; [exact Hl2|exists []; exact Hb|].
+        rewrite (names_of_shape _ _ Hb). exact LN.
       * (* while *)
-        destruct (chk gn bound s) as [bb|] eqn:C1; [|discriminate]. inversion CK; subst bound'.
         apply andb_true_iff in SP. destruct SP as [SP0 SP1].
-        eapply agree_bind with (P := Pe (own ++ rest) asr); [exact (IHe genv base bound own outer en c out asr G IV SP0)| |mono_tac].
-        intros vc out1 vc' w1 [-> [l1 [Hl1 ->]]]. destruct vc as [z|b| |s0]; try exact I. cbn [truthy].
+        eapply agree_bind with (P := Pe (en ++ rest) asr); [exact (IHe genv base en outer c out asr G LO SP0)| |mono_tac].
+        intros vc out1 vc' w1 [-> [l1 [Hl1 ->]]]. destruct vc as [z|b| |s0]; try exact I. cbn [truthy w_stk mkw].
         destruct b.
         -- eapply Ps_ext_agree; [exact Hl1|].
-           eapply agree_bind with (P := Ps rest (asr ++ l1) bound bb own); [exact (IHs genv base bound bb own outer en s out1 (asr ++ l1) G IV C1 SP1)| |mono_tac].
-           intros [c1 en1] out2 c1' w2 [Hc [own1 [l2 [Hl2 [-> P1]]]]]. simpl in Hc. subst c1'. cbn [fst snd] in *.
-           destruct (post_block _ _ _ _ _ _ c1 CNormal IN P1) as [PB [PN PL]].
-           assert (IV2 : inv bound own1 outer (restore (length en) en1)).
-           { destruct P1 as [pre1 [A1 [Q1 [Q2 [Q3 [Q4 [Q5 Q6]]]]]]]. constructor; auto.
-             intros y Hy. rewrite Q4 in Hy. rewrite <- app_assoc in Hy. apply in_app_or in Hy. destruct Hy as [Hy|Hy].
-             - apply Q5. exact Hy.
-             - apply (inv_gn _ _ _ _ IV). exact Hy. }
-           assert (CKW : chk gn bound (SWhile c s) = Some bound) by (simpl; rewrite C1; reflexivity).
-           assert (SPW : stmt_plain (SWhile c s) = true) by (simpl; rewrite SP0, SP1; reflexivity).
-           assert (REC : agree_with (Ps rest (asr ++ l1) bound bound own)
-                     (exec_stmt fns fuel genv (restore (length en) en1) (SWhile c s) out2)
-                     (iexec fns fuel (SWhile c s) (mkw (own1 ++ rest) out2 ((asr ++ l1) ++ l2)))).
-           { destruct P1 as [pre1 [A1 [Q1 [Q2 [Q3 [Q4 [Q5 Q6]]]]]]].
-             eapply agree_with_impl; [|exact (IHs genv base bound bound own1 outer _ (SWhile c s) out2 ((asr ++ l1) ++ l2) G IV2 CKW SPW)].
-             intros r out' c' w'. eapply Ps_chain with (pre1 := []); eauto. }
+           eapply agree_bind with (P := Ps rest (asr ++ l1) en); [exact (IHs genv base en outer s out1 (asr ++ l1) G LO BK SP1)| |mono_tac].
+           intros [c1 en1] out2 c1' w2 [Hc [l2 [Hl2 [-> [[pre1 Q1] Q2]]]]]. simpl in Hc. subst c1'. cbn [fst snd with_stk w_stk w_out w_asr mkw] in *.
+           destruct (leave_block en en1 pre1 Q1) as [a [b0 [E [Ha [Hb [Hr Ht]]]]]].
+           cbv zeta. fold rest. rewrite Ht, Hr.
+           assert (LB : forall x, In x (names b0) -> ~ In x gn) by (rewrite (names_of_shape _ _ Hb); exact LN).
+           assert (REC : agree_with (Ps rest (asr ++ l1) en)
+                     (exec_stmt fns fuel genv b0 (SWhile c s) out2)
+                     (iexec fns fuel (SWhile c s) (mkw (b0 ++ rest) out2 ((asr ++ l1) ++ l2)))).
+           { eapply Ps_chain_agree with (pre1 := []); [exact Hl2|exact Hb|].
+             refine (IHs genv base b0 outer (SWhile c s) out2 ((asr ++ l1) ++ l2) G (locals_ok_shape _ _ _ Hb LO) _ _).
+             - simpl. exact BK.
+             - simpl. rewrite SP0, SP1. reflexivity. }
            destruct c1.
            ++ exact REC.
-           ++ apply agree_ok_Ps; [exact Hl2|exact PB].
+           ++ apply agree_ok_Ps; [exact Hl2|exists []; exact Hb|exact LB].
            ++ exact REC.
-           ++ apply agree_ok_Ps; [exact Hl2|]. apply (proj1 (post_block _ _ _ _ _ _ (CReturn v) (CReturn v) IN P1)).
-        -- apply agree_ok_Ps; [exact Hl1|]. apply post_refl; auto.
+           ++ apply agree_ok_Ps; [exact Hl2|exists []; exact Hb|exact LB].
+        -- apply agree_ok_Ps; [exact Hl1|apply same_shape_pre|exact LN].
       * (* for *)
-        destruct (mem x bound) eqn:M1; [discriminate|]. destruct (mem x gn) eqn:M2; [discriminate|]. simpl in CK.
-        destruct (chk gn (x :: bound) s) as [bb|] eqn:C1; [|discriminate]. inversion CK; subst bound'.
-        apply mem_false_iff in M1. apply mem_false_iff in M2.
+        apply andb_true_iff in BK. destruct BK as [BX BK]. apply negb_mem_notin in BX.
         apply andb_true_iff in SP. destruct SP as [SP SP2]. apply andb_true_iff in SP. destruct SP as [SP0 SP1].
-        eapply agree_bind with (P := Pe (own ++ rest) asr); [exact (IHe genv base bound own outer en lo out asr G IV SP0)| |mono_tac].
+        eapply agree_bind with (P := Pe (en ++ rest) asr); [exact (IHe genv base en outer lo out asr G LO SP0)| |mono_tac].
         intros vlo out1 vlo' w1 [-> [l1 [Hl1 ->]]]. eapply Ps_ext_agree; [exact Hl1|].
-        eapply agree_bind with (P := Pe (own ++ rest) (asr ++ l1)); [exact (IHe genv base bound own outer en hi out1 (asr ++ l1) G IV SP1)| |mono_tac].
+        eapply agree_bind with (P := Pe (en ++ rest) (asr ++ l1)); [exact (IHe genv base en outer hi out1 (asr ++ l1) G LO SP1)| |mono_tac].
         intros vhi out2 vhi' w2 [-> [l2 [Hl2 ->]]]. eapply Ps_ext_agree; [exact Hl2|].
         destruct vlo as [a| | |]; try exact I. destruct vhi as [b| | |]; try exact I.
-        eapply agree_with_impl;
-          [|exact (IHf genv base bound bb x s own outer ((x, (false, VInt a)) :: own) [] en a b out2 ((asr ++ l1) ++ l2) G M1 M2 C1 SP2 IN IND
-                     eq_refl (fun y (H : In y []) => match H with end)
-                     (fun y Hy => eq_trans (vlook_cons_ne y x _ own (fun Q => M1 (eq_ind y (fun z => In z bound) Hy x Q))) (IL y Hy))
-                     (inv_gn _ _ _ _ IV))].
-        intros r out' c' w' [Hc [own' [l3 [Hl3 [Hw [Hn [Hne Hlk]]]]]]]. split; [exact Hc|]. exists own', l3. repeat split; auto.
-        exists [], []. simpl. repeat split; auto; try contradiction.
-      * (* break *) inversion CK; subst bound'.
-        pose proof (agree_ok_Ps rest asr bound bound own CBreak en out own [] alltrue_nil (post_refl _ _ _ _ _ IN IND IL (fun _ => eq_refl))) as H.
-        rewrite app_nil_r in H. exact H.
-      * (* continue *) inversion CK; subst bound'.
-        pose proof (agree_ok_Ps rest asr bound bound own CContinue en out own [] alltrue_nil (post_refl _ _ _ _ _ IN IND IL (fun _ => eq_refl))) as H.
-        rewrite app_nil_r in H. exact H.
-      * (* return *) inversion CK; subst bound'. destruct e as [e|].
-        -- eapply agree_bind with (P := Pe (own ++ rest) asr); [exact (IHe genv base bound own outer en e out asr G IV SP)| |mono_tac].
-           intros v out1 v' w1 [-> [l1 [Hl1 ->]]]. apply agree_ok_Ps; [exact Hl1|]. apply post_refl; auto.
-        -- pose proof (agree_ok_Ps rest asr bound bound own (CReturn VVoid) en out own [] alltrue_nil (post_refl _ _ _ _ _ IN IND IL (fun _ => eq_refl))) as H.
-           rewrite app_nil_r in H. exact H.
-      * (* print *) inversion CK; subst bound'.
-        eapply agree_bind with (P := Pe (own ++ rest) asr); [exact (IHe genv base bound own outer en e out asr G IV SP)| |mono_tac].
+        eapply agree_with_impl; [|exact (IHf genv base x s en outer (VInt a) a b out2 ((asr ++ l1) ++ l2) G BX LO BK SP2)].
+        intros r out' c' w' [Hc [l3 [Hl3 [Hw Hs]]]]. split; [exact Hc|]. exists l3. repeat split; auto.
+        -- exists []. exact Hs.
+        -- rewrite (names_of_shape _ _ Hs). exact LN.
+      * (* break *)
+        pose proof (agree_ok_Ps rest asr en CBreak en out [] alltrue_nil (same_shape_pre en) LN) as H. rewrite app_nil_r in H. exact H.
+      * (* continue *)
+        pose proof (agree_ok_Ps rest asr en CContinue en out [] alltrue_nil (same_shape_pre en) LN) as H. rewrite app_nil_r in H. exact H.
+      * (* return *) destruct e as [e|].
+        -- eapply agree_bind with (P := Pe (en ++ rest) asr); [exact (IHe genv base en outer e out asr G LO SP)| |mono_tac].
+           intros v out1 v' w1 [-> [l1 [Hl1 ->]]]. apply agree_ok_Ps; [exact Hl1|apply same_shape_pre|exact LN].
+        -- pose proof (agree_ok_Ps rest asr en (CReturn VVoid) en out [] alltrue_nil (same_shape_pre en) LN) as H. rewrite app_nil_r in H. exact H.
+      * (* print *)
+        eapply agree_bind with (P := Pe (en ++ rest) asr); [exact (IHe genv base en outer e out asr G LO SP)| |mono_tac].
         intros v out1 v' w1 [-> [l1 [Hl1 ->]]]. cbn [with_out w_stk w_out w_asr mkw].
-        apply (agree_ok_Ps rest asr bound bound own CNormal en _ own l1 Hl1). apply post_refl; auto.
-      * (* assert *) inversion CK; subst bound'.
-        eapply agree_bind with (P := Pe (own ++ rest) asr); [exact (IHe genv base bound own outer en e out asr G IV SP)| |mono_tac].
+        apply (agree_ok_Ps rest asr en CNormal en _ l1 Hl1); [apply same_shape_pre|exact LN].
+      * (* assert *)
+        eapply agree_bind with (P := Pe (en ++ rest) asr); [exact (IHe genv base en outer e out asr G LO SP)| |mono_tac].
         intros v out1 v' w1 [-> [l1 [Hl1 ->]]]. destruct v as [z|[|]| |s0]; try exact I; cbn [truthy w_stk w_out w_asr mkw].
-        -- rewrite <- app_assoc. apply (agree_ok_Ps rest asr bound bound own CNormal en out1 own (l1 ++ [true])).
+        -- rewrite <- app_assoc. apply (agree_ok_Ps rest asr en CNormal en out1 (l1 ++ [true])).
            ++ apply alltrue_app; [exact Hl1|reflexivity].
-           ++ apply post_refl; auto.
+           ++ apply same_shape_pre.
+           ++ exact LN.
         -- simpl. intros a' w' H. inversion H; subst. unfold failed. simpl. rewrite existsb_app. simpl. apply orb_true_r.
-      * (* expression statement *) inversion CK; subst bound'.
-        eapply agree_bind with (P := Pe (own ++ rest) asr); [exact (IHe genv base bound own outer en e out asr G IV SP)| |mono_tac].
-        intros v out1 v' w1 [-> [l1 [Hl1 ->]]]. apply agree_ok_Ps; [exact Hl1|]. apply post_refl; auto.
+      * (* expression statement *)
+        eapply agree_bind with (P := Pe (en ++ rest) asr); [exact (IHe genv base en outer e out asr G LO SP)| |mono_tac].
+        intros v out1 v' w1 [-> [l1 [Hl1 ->]]]. apply agree_ok_Ps; [exact Hl1|apply same_shape_pre|exact LN].
     + (* ------------------------------------------------------------ for loops *)
-      red. intros genv base bound bb x body own0 outer Jx AJ en i hi out asr G NX NXG CK SP EN ND NJ AV LK GN.
+      red. intros genv base x body en outer v i hi out asr G NXG LO BK SP.
       set (rest := outer ++ genv ++ base) in *.
-      assert (BX : forall y, In y bound -> ~ In y AJ /\ y <> x).
-      { intros y Hy. split.
-        - intros Q. apply (proj1 (proj2 (AV y Q))). exact Hy.
-        - intros Q. subst. contradiction. }
       cbn [exec_for ifor]. destruct (Z.ltb i hi) eqn:LT.
-      * assert (XA : ~ In x AJ). { intros Q. apply (proj1 (AV x Q)). reflexivity. }
-        destruct (for_slot Jx AJ x own0 rest (VInt i) NJ XA) as [J1 [ES [NJ1 [VX VO]]]].
-        cbn [with_stk w_stk w_out w_asr mkw]. fold rest. rewrite ES.
-        assert (IVb : inv (x :: bound) J1 outer ((x, (false, VInt i)) :: en)).
-        { constructor.
-          - simpl. rewrite EN. reflexivity.
-          - constructor; assumption.
-          - intros y [Hy|Hy].
-            + subst. rewrite VX, vlook_cons_eq. reflexivity.
-            + assert (y <> x) by (intros Q; subst; contradiction).
-              rewrite VO by assumption. rewrite vlook_cons_ne by assumption. apply LK. exact Hy.
-          - intros y Hy. rewrite NJ1, NJ in Hy. rewrite <- app_assoc in Hy. apply in_app_or in Hy. destruct Hy as [Hy|Hy].
-            + apply (AV y Hy).
-            + simpl in Hy. destruct Hy as [Hy|Hy]; [subst; exact NXG|apply GN; exact Hy]. }
-        eapply agree_bind with (P := Ps rest asr (x :: bound) bb J1);
-          [exact (IHs genv base (x :: bound) bb J1 outer _ body out asr G IVb CK SP)| |mono_tac].
-        intros [c1 en1] out1 c1' w1 [Hc [own1 [l1 [Hl1 [-> P1]]]]]. simpl in Hc. subst c1'. cbn [fst snd] in *.
-        destruct P1 as [pre [A [Q1 [Q2 [Q3 [Q4 [Q5 Q6]]]]]]].
-        assert (Q1' : names en1 = (pre ++ [x]) ++ bound) by (rewrite <- app_assoc; exact Q1).
-        assert (HLe : length en = length bound) by (rewrite <- EN; unfold names; rewrite map_length; reflexivity).
-        destruct (restore_names en1 (pre ++ [x]) bound (length en) Q1' HLe) as [ea [eb [EE [Ha [Hb Hr]]]]].
-        assert (NO1 : names own1 = (A ++ AJ) ++ x :: names own0) by (rewrite Q4, NJ1, NJ, <- app_assoc; reflexivity).
-        assert (AV1 : forall y, In y (A ++ AJ) -> y <> x /\ ~ In y bound /\ ~ In y gn).
-        { intros y Hy. apply in_app_or in Hy. destruct Hy as [Hy|Hy]; [|apply AV; exact Hy].
-          destruct (Q5 y Hy) as [Z1 Z2]. split; [|split; [|exact Z2]].
-          - intros Q. apply Z1. left. symmetry. exact Q.
-          - intros Q. apply Z1. right. exact Q. }
-        assert (LK1 : forall y, In y bound -> vlook y own1 = vlook y eb).
-        { intros y Hy. rewrite Q6 by (apply in_or_app; right; right; exact Hy). rewrite EE. apply vlook_app_r.
-          rewrite Ha. intros Q. apply in_app_or in Q. destruct Q as [Q|[Q|[]]].
-          - revert Q. apply in_app_nodup_l with (bound := x :: bound); [exact Q2|right; exact Hy].
-          - subst. contradiction. }
-        assert (BX1 : forall y, In y bound -> ~ In y (A ++ AJ) /\ y <> x).
-        { intros y Hy. split; [|apply BX; exact Hy]. intros Q. apply (proj1 (proj2 (AV1 y Q))). exact Hy. }
-        rewrite Hr.
-        assert (REC : agree_with (Pf rest asr bound own0)
-                   (exec_for fns fuel genv eb x (i + 1) hi body out1)
-                   (ifor fns fuel (length (own0 ++ outer ++ genv ++ base)) (i + 1) hi body (mkw (own1 ++ rest) out1 (asr ++ l1)))).
+      * cbn [with_stk w_stk w_out w_asr mkw]. fold rest.
+        replace (((x, (false, v)) :: en) ++ rest) with ([] ++ (x, (false, v)) :: (en ++ rest)) by reflexivity.
+        rewrite set_index_app. cbn [app].
+        assert (LOb : locals_ok ((x, (false, VInt i)) :: en) outer).
+        { intros y Hy. simpl in Hy. destruct Hy as [Hy|Hy]; [subst; exact NXG|apply LO; exact Hy]. }
+        eapply agree_bind with (P := Ps rest asr ((x, (false, VInt i)) :: en));
+          [exact (IHs genv base ((x, (false, VInt i)) :: en) outer body out asr G LOb BK SP)| |mono_tac].
+        intros [c1 en1] out1 c1' w1 [Hc [l1 [Hl1 [-> [[pre1 Q1] Q2]]]]]. simpl in Hc. subst c1'. cbn [fst snd with_stk w_stk w_out w_asr mkw] in *.
+        destruct (leave_for_body en en1 x (VInt i) pre1 Q1) as [a0 [v' [b0 [E [Hb [Hr Ht]]]]]].
+        destruct (Ht rest) as [T0 T1]. fold rest. rewrite Hr.
+        assert (REC : agree_with (Pf rest asr en)
+                   (exec_for fns fuel genv b0 x (i + 1) hi body out1)
+                   (ifor fns fuel (length (en ++ rest)) (i + 1) hi body (mkw (((x, (false, v')) :: b0) ++ rest) out1 (asr ++ l1)))).
         { eapply Pf_ext_agree; [exact Hl1|].
-          exact (IHf genv base bound bb x body own0 outer own1 (A ++ AJ) eb (i + 1)%Z hi out1 (asr ++ l1) G NX NXG CK SP Hb ND NO1 AV1 LK1 GN). }
-        destruct (for_exit own1 (A ++ AJ) x own0 rest bound NO1 BX1) as [R1 [TR [NR LR]]].
+          replace (length (en ++ rest)) with (length (b0 ++ rest)) by (rewrite !app_length, (shape_length _ _ Hb); reflexivity).
+          eapply agree_with_impl; [|exact (IHf genv base x body b0 outer v' (i + 1)%Z hi out1 (asr ++ l1) G NXG (locals_ok_shape _ _ _ Hb LO) BK SP)].
+          intros r out' c' w' [Hc [l3 [Hl3 [Hw Hs]]]]. split; [exact Hc|]. exists l3. repeat split; auto. rewrite Hs. exact Hb. }
         destruct c1.
-        -- exact REC.
-        -- cbn [with_stk w_stk w_out w_asr mkw]. fold rest. rewrite TR. apply agree_ok_Pf; auto.
-           intros y Hy. rewrite LR by exact Hy. apply LK1. exact Hy.
-        -- exact REC.
-        -- cbn [with_stk w_stk w_out w_asr mkw]. fold rest. rewrite TR. apply agree_ok_Pf; auto.
-           intros y Hy. rewrite LR by exact Hy. apply LK1. exact Hy.
-      * destruct (for_exit Jx AJ x own0 rest bound NJ BX) as [R1 [TR [NR LR]]].
-        cbn [with_stk w_stk w_out w_asr mkw]. fold rest. rewrite TR.
-        pose proof (agree_ok_Pf rest asr bound own0 CNormal en out R1 [] alltrue_nil NR EN) as H. rewrite app_nil_r in H. apply H.
-        intros y Hy. rewrite LR by exact Hy. apply LK. exact Hy.
+        -- rewrite T1. exact REC.
+        -- rewrite T0. apply agree_ok_Pf; auto.
+        -- rewrite T1. exact REC.
+        -- rewrite T0. apply agree_ok_Pf; auto.
+      * cbn [with_stk w_stk w_out w_asr mkw]. fold rest.
+        replace (((x, (false, v)) :: en) ++ rest) with ([(x, (false, v))] ++ en ++ rest) by reflexivity.
+        rewrite truncate_app.
+        pose proof (agree_ok_Pf rest asr en CNormal en out [] alltrue_nil eq_refl) as H. rewrite app_nil_r in H. exact H.
 Qed.
-
 End Agree.
